@@ -57,6 +57,8 @@ def strat(tier):
         'body_close': st.sampled_from([False, False, False, False, False, True]),
         # the existing destination has a second hard link
         'dest_hardlink': st.sampled_from([False, False, False, True]),
+        # the existing destination is a symbolic link to a file holding the old content
+        'dest_symlink': st.sampled_from([False, False, False, False, True]),
     })
 
 
@@ -98,7 +100,7 @@ def _stale(case, new):
     return b'STALE-' * (len(new) // 6 + 50) if sp == 'longer' else b'S'
 
 
-def _prepare(sandbox, old, stale=None, part_name='dest.bin.part', dest_name='dest.bin', hardlink=False):
+def _prepare(sandbox, old, stale=None, part_name='dest.bin.part', dest_name='dest.bin', hardlink=False, symlink=False):
     for name in os.listdir(sandbox):
         p = os.path.join(sandbox, name)
         if os.path.isdir(p):
@@ -106,11 +108,14 @@ def _prepare(sandbox, old, stale=None, part_name='dest.bin.part', dest_name='des
         else:
             os.unlink(p)
     if old is not None:
-        with open(os.path.join(sandbox, dest_name), 'wb') as f:
+        target = 'symlink-target-of-dest' if symlink else dest_name
+        with open(os.path.join(sandbox, target), 'wb') as f:
             f.write(old)
             f.flush()
             os.fsync(f.fileno())
-        if hardlink:
+        if symlink:
+            os.symlink(target, os.path.join(sandbox, dest_name))
+        if hardlink and not symlink:
             os.link(os.path.join(sandbox, dest_name), os.path.join(sandbox, 'second-link-to-dest'))
     if stale is not None and len(part_name) <= 255:
         with open(os.path.join(sandbox, part_name), 'wb') as f:
@@ -191,12 +196,15 @@ def run(case):
             cfg += ' [destination file name of %d characters: the part file name exceeds NAME_MAX]' % len(DEST)
         elif case.get('name_len'):
             cfg += ' [destination file name of %d characters]' % len(DEST)
-        hardlink = bool(case.get('dest_hardlink')) and old is not None
+        symlink = bool(case.get('dest_symlink')) and old is not None and overwrite
+        if symlink:
+            cfg += ' [the destination is a symbolic link to a file with the old content]'
+        hardlink = bool(case.get('dest_hardlink')) and old is not None and not symlink
         if hardlink:
             cfg += ' [the destination has a second hard link]'
         if case.get('body_close'):
             cfg += ' [the body closes the file object before leaving]'
-        _prepare(sandbox, old, stale, part_name, DEST, hardlink)
+        _prepare(sandbox, old, stale, part_name, DEST, hardlink, symlink)
         code, res = fsio.run_in_child(sandbox, body)
         if res is None or code != 0:
             raise HarnessError('recording child failed: exit %r, result %r' % (code, res))
@@ -217,7 +225,7 @@ def run(case):
             return out.fail('c04.normal-exit-content', '%s: after a normal exit the destination is %s, expected the new content %s' % (
                 cfg, _short(final), _short(new)))
         left = sorted(os.listdir(sandbox))
-        if [x for x in left if x != 'second-link-to-dest'] != ([DEST] if final is not None else []):
+        if [x for x in left if x not in ('second-link-to-dest', 'symlink-target-of-dest')] != ([DEST] if final is not None else []):
             return out.fail('c04.normal-exit-leftovers', '%s: after a normal exit the directory holds %r' % (cfg, [x[:20] for x in left]))
         # ---- trace oracle ----------------------------------------------
         # (VERIF_C04_NO_TRACE=1 is a self-test switch: it disables the static trace oracle so that the
@@ -255,7 +263,7 @@ def run(case):
         n_nontrivial = 0
         for idx in range(len(events)):
             for when in ('before', 'after'):
-                _prepare(sandbox, old, stale, part_name, DEST, hardlink)
+                _prepare(sandbox, old, stale, part_name, DEST, hardlink, symlink)
                 code, r2 = fsio.run_in_child(sandbox, body, crash_at=(idx, when))
                 n_points += 1
                 if code != 137:
@@ -280,6 +288,8 @@ def run(case):
             out.label('stale_part_file_taken_over')
         if hardlink:
             out.label('destination_has_second_hard_link')
+        if symlink:
+            out.label('destination_is_symlink')
         if case.get('body_close'):
             out.label('body_closes_file:%s' % ('refused' if refused else 'completed'))
         if case.get('name_len'):
